@@ -147,6 +147,22 @@ def _dictionary(ctx):
               and d2["G"].dtype == torch.double and d2["G"].tolist() == [[[1, 0], [0, 1]], [[0, 1], [1, 0]]])
     ctx.holds("create_dict/added/not-aliasing-caller", d2["H"].data_ptr() != Hm.data_ptr())
     ctx.holds("create_dict/added/defaults-kept", all(torch.equal(d2[k], d[k]) for k in "XYZ"))
+    # history: a dictionary belongs to whoever asked for it. Editing the tensors of one (or of a state's default dictionary)
+    # in place reaches no other dictionary, no other state, and no dictionary made later
+    from qucumber.nn_states import ComplexWaveFunction, DensityMatrix
+    ref = {k: d[k].clone() for k in "XYZ"}
+    mine, s_old = unitaries.create_dict(), ComplexWaveFunction(2, 1, gpu=False)
+    ptrs = {id_: {k: v.data_ptr() for k, v in dd.items() if k in "XYZ"} for id_, dd in (("d", d), ("mine", mine), ("state", s_old.unitary_dict))}
+    ctx.holds("create_dict/history: default entries of two dictionaries (and of a state's default dictionary) share no storage",
+              all(len({ptrs[a][k] for a in ptrs}) == 3 for k in "XYZ"))
+    for k in "XYZ":
+        mine[k].mul_(-3.0).add_(0.25)
+        s_old.unitary_dict[k].zero_()
+    later, s_new, m_new = unitaries.create_dict(), ComplexWaveFunction(2, 1, gpu=False), DensityMatrix(2, 1, 1, gpu=False)
+    ctx.holds("create_dict/history: after another dictionary's tensors were edited in place, an existing dictionary still holds the Pauli eigenvector unitaries",
+              all(torch.equal(d[k], ref[k]) for k in "XYZ"))
+    ctx.holds("create_dict/history: ... and so do a dictionary made later and the default dictionaries of states made later",
+              all(torch.equal(later[k], ref[k]) and torch.equal(s_new.unitary_dict[k], ref[k]) and torch.equal(m_new.unitary_dict[k], ref[k]) for k in "XYZ"))
 
 
 def _rotations(ctx, cfg):
